@@ -764,11 +764,13 @@ impl Words4 for u64x4_generic {
     }
     #[inline(always)]
     fn shuffle1230(self) -> Self {
-        unimplemented!()
+        let (a, b) = (self.0[0].0, self.0[1].0);
+        x2::new([u64x2_generic([b[1], a[0]]), u64x2_generic([a[1], b[0]])])
     }
     #[inline(always)]
     fn shuffle3012(self) -> Self {
-        unimplemented!()
+        let (a, b) = (self.0[0].0, self.0[1].0);
+        x2::new([u64x2_generic([a[1], b[0]]), u64x2_generic([b[1], a[0]])])
     }
 }
 
